@@ -402,9 +402,11 @@ def find_children_for_parent(var_collector: Collector, parent_node: ParentNode, 
         nodes = process_list_breadth_first(var_collector, parent_node, builtin_base(variable_type).__iter__(value))
         if variable_type is builtin_base(variable_type):
             return nodes
-    elif isinstance(value, Exception):
+    elif issubclass(variable_type, Exception):
         # what it was raised with, and the attributes an application exception carries (a code, the offending record)
-        nodes = process_list_breadth_first(var_collector, parent_node, value.args)
+        # (asked of the type and of BaseException itself: isinstance consults a __class__ property, and `args` can be
+        # a property of the application's class)
+        nodes = process_list_breadth_first(var_collector, parent_node, BaseException.args.__get__(value))
     else:
         nodes = []
     # the attributes the object carries itself: in an attribute dictionary, in slots, or both
@@ -449,12 +451,12 @@ def process_dict_breadth_first(parent_node, type_name, value, func=lambda x, y: 
     :param func:
     :return (list): the collected child nodes
     """
-    # we wrap the keys() in a call to list to prevent concurrent changes
+    # we take one copy of the items to prevent concurrent changes
     # keys can be any hashable value, the variable names are always text
-    # (read through dict itself: a class derived from dict can have its own keys / __contains__ / __getitem__)
-    return [Node(value=NodeValue(func(type_name, safe_str(key)), dict.__getitem__(value, key), safe_str(key)),
-                 parent=parent_node)
-            for key in list(builtin_base(type(value)).keys(value)) if dict.__contains__(value, key)]
+    # (read through dict / OrderedDict itself: a class derived from dict can have its own keys / __getitem__; and as
+    # items, so that no key is hashed or compared: that is the application's code too)
+    return [Node(value=NodeValue(func(type_name, safe_str(key)), child, safe_str(key)), parent=parent_node)
+            for key, child in list(builtin_base(type(value)).items(value))]
 
 
 def process_slots_breadth_first(parent_node, variable_type: type, value) -> List[Node]:
@@ -481,7 +483,9 @@ def process_slots_breadth_first(parent_node, variable_type: type, value) -> List
             if name.startswith('__') and not name.endswith('__'):
                 name = '_%s%s' % (klass.__name__.lstrip('_'), name)     # the compiler mangles private slot names
             member = klass.__dict__.get(name)
-            if name in ('__dict__', '__weakref__') or name in seen or not hasattr(member, '__get__'):
+            # (only what the slot itself made: a property that took the place of a slot is the application's code)
+            if name in ('__dict__', '__weakref__') or name in seen \
+                    or not isinstance(member, types.MemberDescriptorType):
                 continue
             seen.add(name)
             try:
